@@ -36,8 +36,11 @@ var ChanTypes = []struct {
 	{"tweakless", channeldb.SingleFunderTweaklessBit},
 	{"anchors", channeldb.SingleFunderTweaklessBit | channeldb.AnchorOutputsBit},
 	{"anchors-zero-fee", channeldb.SingleFunderTweaklessBit | channeldb.AnchorOutputsBit | channeldb.ZeroHtlcTxFeeBit},
+	// script-enforced lease: LeaseExpirationBit WITHOUT FrozenBit, as
+	// reservation.go sets it (the two are alternatives there); the thaw
+	// height is what the lease CLTV in the scripts is built from
 	{"lease", channeldb.SingleFunderTweaklessBit | channeldb.AnchorOutputsBit | channeldb.ZeroHtlcTxFeeBit |
-		channeldb.LeaseExpirationBit | channeldb.FrozenBit},
+		channeldb.LeaseExpirationBit},
 	{"taproot-staging", channeldb.SingleFunderTweaklessBit | channeldb.AnchorOutputsBit | channeldb.ZeroHtlcTxFeeBit |
 		channeldb.SimpleTaprootFeatureBit},
 	{"taproot-final", channeldb.SingleFunderTweaklessBit | channeldb.AnchorOutputsBit | channeldb.ZeroHtlcTxFeeBit |
